@@ -168,3 +168,18 @@ pub fn verif_filter<I: Iterator, F: FnMut(&I::Item) -> bool>(it: I, f: F, Ghost(
 pub fn verif_collect<I: Iterator>(it: I) -> (r: Vec<I::Item>)
     ensures r@ == it.remaining()
 { it.collect() }
+
+// A-LIB-RESULT: definitional contracts of Result combinators not covered by vstd
+pub assume_specification<T, E, F: FnOnce(E) -> T>[ ::core::result::Result::<T, E>::unwrap_or_else ](r: Result<T, E>, f: F) -> (o: T)
+    requires r is Err ==> f.requires((r->Err_0,)),
+    ensures r is Ok ==> o == r->Ok_0, r is Err ==> f.ensures((r->Err_0,), o),
+;
+// R7: external f64 constants read through opaque functions (uninterpreted values)
+pub uninterp spec fn f64_named_const_s(name: int) -> f64;
+#[verifier::external_body] pub fn f64_const_epsilon() -> (r: f64) ensures r == f64_named_const_s(1) { f64::EPSILON }
+#[verifier::external_body] pub fn f64_const_max() -> (r: f64) ensures r == f64_named_const_s(2) { f64::MAX }
+#[verifier::external_body] pub fn f64_const_min() -> (r: f64) ensures r == f64_named_const_s(3) { f64::MIN }
+#[verifier::external_body] pub fn f64_const_min_positive() -> (r: f64) ensures r == f64_named_const_s(4) { f64::MIN_POSITIVE }
+#[verifier::external_body] pub fn f64_const_infinity() -> (r: f64) ensures r == f64_named_const_s(5) { f64::INFINITY }
+#[verifier::external_body] pub fn f64_const_neg_infinity() -> (r: f64) ensures r == f64_named_const_s(6) { f64::NEG_INFINITY }
+#[verifier::external_body] pub fn f64_const_nan() -> (r: f64) ensures r == f64_named_const_s(7) { f64::NAN }
